@@ -274,6 +274,18 @@ def run_batch(cid: str, tier: str, seed: int, n_runs: int, workers: int, wall_ca
             if time.time() - t0 > wall_cap and not capped:
                 capped = True
                 nxt = end
+    # a worker that dies (watchdog, OOM kill) breaks the whole pool and every future still in it: give those runs one
+    # more chance in a fresh, smaller pool before declaring a harness failure (a run is a pure function of its index)
+    lost = [r["run_index"] for r in results if "worker died" in str(r.get("harness_error", ""))]
+    if lost and not opts.get("_no_retry"):
+        results = [r for r in results if r["run_index"] not in set(lost)]
+        with cf.ProcessPoolExecutor(max_workers=max(2, workers // 4), mp_context=ctx, initializer=_worker_init) as pool:
+            futs = {pool.submit(_task, (cid, tier, seed, i, None, opts, task_timeout * 2)): i for i in lost}
+            for fut, idx in futs.items():
+                try:
+                    results.append(fut.result())
+                except Exception as e:
+                    results.append({"run_index": idx, "harness_error": f"worker died / raised twice: {e!r}"})
     results.sort(key=lambda r: r.get("run_index", 0))
     return results, capped
 
